@@ -310,7 +310,12 @@ Definition deps_rows (runid : Z) (d : db) (r : row) (f : fid) : list (dep * row)
 (* private_is_dirty on file id [f], judged on the copy [r] of its row that the
    caller holds; returns the verdict, the world (the database may have been
    written), the callback state, and override warnings *)
-Fixpoint is_dirty (fuel : nat) (runid : Z) (w : world) (c : chk) (f : fid) (r : row)
+(* [cyc] = REDO_CYCLES of the checking process: the targets its ancestors are
+   building right now.  A recorded dependency on one of them says nothing (its
+   rows are in mid-build): the target is dirty, and if its script still asks for
+   that ancestor the cycle is reported then (fix F66: the walk went into the
+   ancestor's half-written rows and took a stale reverse edge for a cycle). *)
+Fixpoint is_dirty (fuel : nat) (runid : Z) (cyc : list fid) (w : world) (c : chk) (f : fid) (r : row)
          (max_changed : Z) (seen : list fid) : dirty_result :=
   match fuel with
   | O => EFuel
@@ -333,7 +338,8 @@ Fixpoint is_dirty (fuel : nat) (runid : Z) (w : world) (c : chk) (f : fid) (r : 
              forget_missing w f r ns, c, [])
       else
         let sub_max := Z.max chg (match r_checked r with Some k => k | None => 0%Z end) in
-        walk_deps (fun w c s rs => is_dirty fuel' runid w c s rs sub_max (f :: seen))
+        walk_deps (fun w c s rs => if existsb (Nat.eqb s) cyc then Ret (VDirty, w, c, [])
+                                   else is_dirty fuel' runid cyc w c s rs sub_max (f :: seen))
                   runid f r (deps_rows runid (dbs w) r f) w c [] []
     end end end
   end.
@@ -600,7 +606,7 @@ Definition start (rec : rec_t) (fuel : nat) (e : env) (m : mode) (t : name) (w :
   | MIfChange =>
       let r := load runid (dbs w) f in
       if is_failed runid r then Ret (w, [EvFailed32 t], 32%Z, false) else
-      match is_dirty fuel runid w ChkDb f r runid [] with
+      match is_dirty fuel runid (e_cycles e) w ChkDb f r runid [] with
       | EFuel => EFuel
       | Ret (v, w, _, evd) =>
           let v := match v with
@@ -740,7 +746,7 @@ Definition exec (c : cmd) (w : world) : world * output :=
                  match acc with
                  | Ret (_, _, _, true) => acc
                  | Ret (w1, c1, out, cyc) =>
-                     match is_dirty fuel runid w1 c1 (fst x) (snd x) runid [] with
+                     match is_dirty fuel runid [] w1 c1 (fst x) (snd x) runid [] with
                      | Ret (VClean, w2, c2, _) => Ret (w2, c2, out, cyc)
                      | Ret (VCycle, w2, c2, _) => Ret (w2, c2, out, true)
                      | Ret (_, w2, c2, _) => Ret (w2, c2, out ++ [r_name (snd x)], cyc)
